@@ -204,7 +204,9 @@ def rule_axismirror(ctx):
     x, y = ic[0].a[1]
     swapped = tm.rebuild(cell, lambda z: y if z is x else (x if z is y else None))
     M0 = Mirror(f)
-    yield ob(R, f, "pattern._compute_score_matrix:cell-symmetric", M0.norm(swapped) is M0.norm(cell), "the cell |P_i & Q_j| / max(|P_i|, |Q_j|) is unchanged when the two occurrences are exchanged, so the matrix of the swapped call is the transpose")
+    # both operands must be the plain loop elements of the two sides (a transformation applied to one side only breaks the mirror)
+    plain = x.op == "iter" and y.op == "iter" and x.a[0].op in ("param",) and y.a[0].op in ("param",)
+    yield ob(R, f, "pattern._compute_score_matrix:cell-symmetric", plain and M0.norm(swapped) is M0.norm(cell), "the cell |P_i & Q_j| / max(|P_i|, |Q_j|) is unchanged when the two occurrences are exchanged, so the matrix of the swapped call is the transpose")
     g = ctx.program.func("pattern._occurrence_intersection", R)
     sg = ctx.S.get(g.qual)
     t = sg.returns[0].term
@@ -372,7 +374,22 @@ def rule_symscore(ctx):
     # F entries at the default beta: every caller passes (precision, recall) in that order - C16.FDERIV
 
 
+def rule_closedwindow(ctx):
+    """Shared with C05: the event window is closed on both sides (|r - e| <= w), which is what makes it symmetric."""
+    from . import c05
+
+    for o in c05.rule_windowsides(ctx):
+        if o.rule == "C05.WINDOWSIDES":
+            o.rule = "C06.CLOSEDWINDOW"
+            yield o
+    for o in c05.rule_moddist(ctx):
+        if o.construct.endswith(":form"):
+            o.rule = "C06.CLOSEDWINDOW"
+            yield o
+
+
 RULES = [
+    ("C06.CLOSEDWINDOW", 3, rule_closedwindow),
     ("C06.PRMIRROR", 12, rule_prmirror),
     ("C06.AXISMIRROR", 13, rule_axismirror),
     ("C06.TWINCALL", 7, rule_twincall),
